@@ -133,7 +133,7 @@ inductive WEv where
   | empty          -- `default:` of the writeLoop (buffer empty), final line written
   | timer          -- `<-time.After(10ms)` of the back-off select
   | fdeq (l : Line) -- `line := <-logBuffer` in finalizeWriting
-  | ftimeout       -- `<-time.After(10ms)` in finalizeWriting
+  | ftimeout       -- `<-time.After(10ms)` in finalizeWriting with `len(logBuffer) == 0` (else: keep draining)
   deriving DecidableEq, Repr
 
 /-- One step of the writer goroutine: new local state and the adapter writes performed. -/
